@@ -6,11 +6,14 @@ Trace == ndJsonDeserialize("trace.ndjson")
 VARIABLES l, bad
 
 (* the hostname of the Ingress and its server-alias: the documentation makes the alias another name of the same host *)
-HostNames == {<<"a", ".", "l", "o", "c", "a", "l">>, <<"b", ".", "l", "o", "c", "a", "l">>}
+(* ... and its server-alias-regex ^[^.]+\.alt\.local$ (a regex of the shape MapLookup!WildHit evaluates) *)
+HostNames == {<<"a", ".", "l", "o", "c", "a", "l">>, <<"b", ".", "l", "o", "c", "a", "l">>,
+              <<"x", ".", "a", "l", "t", ".", "l", "o", "c", "a", "l">>}
 BaseOf(hc, p) == hc \o <<"#">> \o p
 
 FileOf(s) == [method |-> s.method, lower |-> s.lower,
-              entries |-> [j \in 1..Len(s.entries) |-> [k |-> SeqT(s.entries[j].k), v |-> s.entries[j].v]]]
+              entries |-> [j \in 1..Len(s.entries) |-> [k |-> SeqT(s.entries[j].k), v |-> s.entries[j].v,
+                                                       w |-> SeqT(s.entries[j].w), re |-> s.entries[j].re, p |-> SeqT(s.entries[j].p)]]]
 
 (* txn.pathID as the backend computes it *)
 RECURSIVE PathIDOf(_, _, _, _)
@@ -35,10 +38,14 @@ Judge(e) ==
             owner == IF win = {} THEN "none" ELSE (CHOOSE r \in win : TRUE).id
             what == DeclaredService(e.cs, owner)
             right == GuardedRight(e.front, NoHit, b, p, what) \/ GuardedRight(e.backend.auth, pid, b, p, what)
-        IN (IF mustGuard => ok THEN {}
-            ELSE {[id |-> e.id, inv |-> "FailClosed", path |-> p, cs |-> e.cs, alias |-> hc[1] = "b"]})
+            \* (the regex maps a server-alias-regex lands in are case sensitive, in the frontend as well: /App through the regex alias
+            \* is not routed to this backend at all, so it is not a request to the protected path)
+            skip == hc[1] = "x" /\ \E i \in 1..Len(p) : p[i] = "A"
+        IN IF skip THEN {} ELSE
+           (IF mustGuard => ok THEN {}
+            ELSE {[id |-> e.id, inv |-> "FailClosed", path |-> p, cs |-> e.cs, alias |-> hc[1] # "a"]})
            \cup (IF mustGuard /\ ok /\ Cardinality(win) = 1 /\ ~right
-                 THEN {[id |-> e.id, inv |-> "RightService", path |-> p, cs |-> e.cs, alias |-> hc[1] = "b"]} ELSE {})
+                 THEN {[id |-> e.id, inv |-> "RightService", path |-> p, cs |-> e.cs, alias |-> hc[1] # "a"]} ELSE {})
         : k \in 1..Len(e.reqs), hc \in HostNames}
 
 TraceNext == /\ l <= Len(Trace) /\ l' = l + 1 /\ bad' = bad \cup Judge(Trace[l]) /\ UNCHANGED cs
